@@ -465,7 +465,10 @@ def d1_fluxes(ck, mod, roles):
             continue
         M = r.value.id
         sizes_m = sizes | {'%s.shape[0]' % M, '%s.shape[1]' % M}
-        sites = fi.defs_of_use(r.value)
+        # source order (a set of AST nodes iterates in address order: the
+        # evidence and the order of the messages must not depend on that)
+        sites = sorted(fi.defs_of_use(r.value), key=lambda s: (0, 0, s) if isinstance(s, str)
+                       else (1, getattr(s, 'lineno', 0), ''))
         pure_product = {}          # def site -> formula recognised as the plain product
         for site in sites:
             v = fi.def_value(site, M) if isinstance(site, (ast.Assign, ast.AnnAssign)) else None
